@@ -70,6 +70,36 @@ def run(rep, tier, seed, replay):
     if v and not found:
         found = True
         rep.violation(v)
+    # replica assignments changing between refreshes: reads may go to replicas of the owning master only, writes to the master
+    res = differential(rep, PROP, "c14e2e", seed + 7, 12 if quick else 600, tier, model_modes=[])
+    cases2, impl2 = res["cases"], res["impl"]
+    bad = []
+    for i, c in enumerate(cases2):
+        hd, ops = c.split(" # ")
+        strategy = int(hd.split()[0])
+        reqs = [o for o in ops.split() if o[0] in "gs"]
+        outs = impl2[i].split()
+        store = {}
+        if len(outs) != len(reqs):
+            bad.append((i, "%d requests, %d results: %s" % (len(reqs), len(outs), impl2[i][:200])))
+            continue
+        for o, r in zip(reqs, outs):
+            reply, _, tag = r.partition("@")
+            if o[0] == "s":
+                store[o[1:]] = True
+                want, tags = "S4f4b", ("M",)
+            else:
+                want, tags = ("B76" if o[1:] in store else "Bn"), (("M",) if strategy == 0 else ("M", "R"))
+            if reply != want or tag not in tags:
+                bad.append((i, "%s %s: reply %s first sent to %s; a single server answers %s and the command may go to %s only (M = the master owning the slot, R = one of its replicas)"
+                            % ("SET" if o[0] == "s" else "GET", o[1:], reply, tag or "nobody", want, "/".join(tags))))
+                break
+    add_corr(rep, "Replica assignments changing between refreshes (end to end): first hop of every command and its reply vs the property's oracle", res, [b[0] for b in bad], len(set(cases2)))
+    if bad and not found:
+        found = True
+        i, what = min(bad, key=lambda x: len(cases2[x[0]]))
+        rep.violation({"kind": "history", "oracle": what, "case": {"line": cases2[i], "format": "strategy(0 master,1 both,2 replica) masters layout # ar<m> add replica of m | mr<r>,<m> r now replicates m | w refresh | g<hexkey> | s<hexkey>"},
+                       "impl": impl2[i], "failing_cases": len(bad)})
     if not pr["ok"] and not found:
         rep.violation({"kind": "broken-tie", "theorem": pr.get("broken"), "detail": pr.get("tail"),
                        "searched": "%d requests: implementation agrees with the model" % len(cases)}, found_input=False)
